@@ -625,6 +625,29 @@ async fn history(ctx: &Ctx, rng: &mut Rng, hid: usize, yields: bool) {
         }
         v
     };
+    // names with a past: one that a victim held and gave up, now held by a survivor; one that a victim holds next to
+    // another name of a survivor; plus every name as it stands now. The survivors' names must outlive the victims.
+    let survivors: Vec<ExternalPid> = pids.iter().filter(|p| !victims.iter().any(|v| key(v) == key(p))).cloned().collect();
+    let mut held_by_survivors: Vec<(Atom, PidKey, &'static str)> = Vec::new();
+    for (i, v) in victims.iter().enumerate() {
+        if let Some(s) = survivors.get(i % survivors.len().max(1)) {
+            let moved = Atom::new(format!("moved{}", i));
+            if node.register(moved.clone(), v.clone()).await.is_ok() && node.unregister(&moved).await.is_ok() && node.register(moved.clone(), s.clone()).await.is_ok() {
+                held_by_survivors.push((moved, key(s), "given-up-by-a-process-that-then-failed"));
+            }
+            let twice = Atom::new(format!("again{}", i));
+            if node.register(twice.clone(), s.clone()).await.is_ok() && node.unregister(&twice).await.is_ok() && node.register(twice.clone(), s.clone()).await.is_ok() {
+                held_by_survivors.push((twice, key(s), "registered-again-by-the-same-process"));
+            }
+        }
+    }
+    for nm in &names {
+        if let Some(p) = node.whereis(nm).await {
+            if survivors.iter().any(|s| key(s) == key(&p)) {
+                held_by_survivors.push((nm.clone(), key(&p), "as-the-history-left-it"));
+            }
+        }
+    }
     for v in &victims {
         let _ = node.send(v, OwnedTerm::atom("poison")).await;
     }
@@ -644,6 +667,18 @@ async fn history(ctx: &Ctx, rng: &mut Rng, hid: usize, yields: bool) {
     ctx.eval(1);
     ctx.class(&format!("history/{}proc/{}tasks/{}names/{}victims/{}", nproc.min(8), ntasks, names.len(), victims.len(), if yields { "yields" } else { "mt" }));
     ctx.count("exit_hook_hits", hits.load(Ordering::Relaxed));
+    // (3') names of processes that are still alive
+    for (nm, holder, past) in &held_by_survivors {
+        ctx.eval(1);
+        let now = node.whereis(nm).await.map(|p| key(&p));
+        if now != Some(*holder) {
+            ctx.viol(
+                &format!("C18:name-of-live-process-lost:{}", past),
+                "a name registered for a process that is still alive no longer resolves to it after other processes failed",
+                json!({"base": wit_base, "name": nm.as_str(), "resolves_to": format!("{:?}", now), "holder": format!("{:?}", holder)}),
+            );
+        }
+    }
     // (3) identifiers and names of terminated processes
     for v in &victims {
         if node.send(v, OwnedTerm::atom("hello")).await.is_ok() {
@@ -889,7 +924,7 @@ async fn dying_caller(ctx: &Ctx, rng: &mut Rng, hid: usize, yields: bool) {
 }
 
 pub fn run(ctx: &Ctx) {
-    ctx.rule("histories = 3..8 recording processes, 2..6 driver tasks, 20..100 operations each over 1..3 contended names: numbered sends by pid and by name, register/unregister/whereis (call/return stamped from one counter), link/unlink on task-owned pairs, monitor/demonitor, gen_server and gen_event calls; then 1..2 processes are made to fail; offline checkers: per (sender, receiver) in-order duplicate-free complete delivery, exactly-once exit/monitor notices for links/monitors in force before the failure, dead pids and their names no longer resolve and names are reusable, per-name linearizability (exact search), one reply per behaviour call; behaviour calls whose caller is parked in the middle of terminating (still resolvable) mixed with calls from a live caller, which must all be answered; 2..6 tasks racing to register the same 150..1200 fresh names (each granted exactly once, resolving to the winner); on the multi-thread runtime additionally bursts of 400..3000 numbered messages from 1..3 senders to a process held busy behind a gate (around the mailbox capacity), handled exactly once and in each sender's order; multi-thread runtime and current-thread runtime with seeded yields at the exit-propagation hooks; evaluations = deliveries, notices, name operations and calls judged; distinct = distinct history configurations");
+    ctx.rule("histories = 3..8 recording processes, 2..6 driver tasks, 20..100 operations each over 1..3 contended names: numbered sends by pid and by name, register/unregister/whereis (call/return stamped from one counter), link/unlink on task-owned pairs, monitor/demonitor, gen_server and gen_event calls; then 1..2 processes are made to fail; offline checkers: per (sender, receiver) in-order duplicate-free complete delivery, exactly-once exit/monitor notices for links/monitors in force before the failure, dead pids and their names no longer resolve and names are reusable, names of live processes (also ones a failed process had held and given up earlier) keep resolving, per-name linearizability (exact search), one reply per behaviour call; behaviour calls whose caller is parked in the middle of terminating (still resolvable) mixed with calls from a live caller, which must all be answered; 2..6 tasks racing to register the same 150..1200 fresh names (each granted exactly once, resolving to the winner); on the multi-thread runtime additionally bursts of 400..3000 numbered messages from 1..3 senders to a process held busy behind a gate (around the mailbox capacity), handled exactly once and in each sender's order; multi-thread runtime and current-thread runtime with seeded yields at the exit-propagation hooks; evaluations = deliveries, notices, name operations and calls judged; distinct = distinct history configurations");
     ctx.assume("links/monitors are compared as of a quiescent barrier before the failing message is sent; messages accepted after a process was sent its failing message are not required to be handled");
     let mut rng = Rng::derive(ctx.seed, 18, 1);
     let n = ctx.pick(60usize, 8000usize);
